@@ -138,7 +138,9 @@ static inline int sline_size(struct sline *sl)
 
 static inline int sline_putchar(struct sline *sl, char c)
 {
-    if (sl->len >= sl->cap - 1)
+    // one byte is kept for the terminator; written as len + 1 >= cap because
+    // cap - 1 wraps to UINT_MAX for cap == 0 (a line without a buffer)
+    if (sl->len + 1 >= sl->cap)
         return 0;
 
     if (sl->cursor != sl->len)
